@@ -231,7 +231,7 @@ Fixpoint explore (n : nat) (c : cfg) (s : hst) : bool :=
       (* DTLS: dropped, session untouched - a ChangeCipherSpec (no message_seq) or a message whose message_seq is not the expected one *)
       | ODrop _ => dtls s && droppable i && hst_eqb s s'
       (* DTLS server: cookie-less ClientHello answered statelessly; the log can still become legal (optional cookie exchange) *)
-      | OHvr => dtls s && hst_eqb s s' && prefix_okb c (acc s ++ [item_of i])
+      | OHvr => dtls s && hst_eqb s s' && prefix_okb c (acc s ++ [item_of i]) && (match i with IHs m => Z.eqb (m_typ m) CH | ICcs => false end)
       | OWarn _ => false
       | ORefuse => false
       end) (alphabet (c_dtls c))
@@ -448,7 +448,7 @@ Definition quiet (c : cfg) (s : hst) (i : input) (o : out) : Prop :=
   (o = OWarn c_SSL_ALERT_NO_RENEGOTIATION /\ hs s = DONE /\ v13 s = false /\
    exists m, i = IHs m /\ m_typ m = (if server s then CH else HREQ)) \/
   (* DTLS server: a cookie-less ClientHello is answered with HelloVerifyRequest and forgotten; the (empty) log stays legal *)
-  (o = OHvr /\ dtls s = true /\ prefix_ok c (acc s ++ [item_of i])).
+  (o = OHvr /\ dtls s = true /\ prefix_ok c (acc s ++ [item_of i]) /\ exists m, i = IHs m /\ m_typ m = CH).
 
 Lemma done_step c s i s' o :
   step s i = (s', o) -> err s = false -> hs s = DONE ->
@@ -671,8 +671,10 @@ Proof.
     destruct (v13 s); [left; reflexivity|]. cbn [orb] in K1. apply andb_prop in K1. right. exact K1.
   - right; left. destruct (andb_prop _ _ Hi) as [K1 K3]. destruct (andb_prop _ _ K1) as [K0 K2]. apply hst_eqb_eq in K3.
     split; [|symmetry; exact K3]. right; left. split; [exact K0|]. split; [exact K2|]. eexists; reflexivity.
-  - right; left. destruct (andb_prop _ _ Hi) as [K1 K3]. destruct (andb_prop _ _ K1) as [K0 K2]. apply hst_eqb_eq in K2.
-    split; [|symmetry; exact K2]. right; right; right. split; [reflexivity|]. split; [exact K0|]. apply prefix_okb_sound. exact K3.
+  - right; left. destruct (andb_prop _ _ Hi) as [K4 K5]. destruct (andb_prop _ _ K4) as [K1 K3]. destruct (andb_prop _ _ K1) as [K0 K2].
+    apply hst_eqb_eq in K2.
+    split; [|symmetry; exact K2]. right; right; right. split; [reflexivity|]. split; [exact K0|]. split; [apply prefix_okb_sound; exact K3|].
+    destruct i as [|m]; [discriminate|]. exists m. split; [reflexivity|]. apply Z.eqb_eq. exact K5.
   - discriminate.
 Qed.
 
@@ -859,7 +861,7 @@ Definition quiet3 (s : hst) (i : input) (o : out) : Prop :=
 
 Lemma quiet_cases c s i o : quiet c s i o -> quiet3 s i o \/ (o = OHvr /\ prefix_ok c (acc s ++ [item_of i])).
 Proof.
-  intros [Q | [Q | [Q | [Q1 [_ Q2]]]]].
+  intros [Q | [Q | [Q | [Q1 [_ [Q2 _]]]]]].
   - left; left; exact Q.
   - left; right; left; exact Q.
   - left; right; right; exact Q.
@@ -913,21 +915,31 @@ Qed.
 Theorem no_finished_before_ccs : forall c is m, In c all_cfgs ->
   let s := fst (run (init c) is) in
   err s = false -> v13 s = false -> rsec s = false -> m_typ m = FIN ->
-  exists s' o, step s (IHs m) = (s', o) /\ fatal_out o = true /\ err s' = true.
+  exists s' o, step s (IHs m) = (s', o) /\
+    ((fatal_out o = true /\ err s' = true) \/
+     (* DTLS: a Finished whose message_seq is not the expected one is dropped like any such message *)
+     (dtls s = true /\ m_cls m <> MExp /\ (exists r, o = ODrop r) /\ s' = s)).
 Proof.
   intros c is m Hc s He V R Hm. subst s. pose proof (reach c is Hc) as Q.
   remember (fst (run (init c) is)) as s eqn:Es. clear Es.
   destruct (step s (IHs m)) as [s' o] eqn:Hs. exists s', o. split; [reflexivity|].
+  assert (Hq : forall q, quiet c s (IHs m) o -> q = s' -> s' = s ->
+               (fatal_out o = true /\ err s' = true) \/ (dtls s = true /\ m_cls m <> MExp /\ (exists r, o = ODrop r) /\ s' = s)).
+  { intros q [[_ [Q1 _]] | [[D [Dr Ex]] | [[_ [_ [_ [m0 [Hi0 Hm0]]]]] | [_ [_ [_ [m0 [Hi0 Hm0]]]]]]]] _ Es.
+    - discriminate.
+    - right. split; [exact D|]. split; [|split; [exact Ex | exact Es]].
+      cbn [droppable] in Dr. intro E. rewrite E in Dr. discriminate.
+    - exfalso. inversion Hi0; subst m0. rewrite Hm in Hm0. destruct (server s); discriminate.
+    - exfalso. inversion Hi0; subst m0. rewrite Hm in Hm0. discriminate. }
   destruct Q as [E | _ D Hi | Hl].
   - congruence.
-  - destruct (done_step s (IHs m) s' o Hs He D) as [F | [[[[_ [Hi' _]] | [_ [_ [m0 [Hi0 Hm0]]]]] _] | [m' [_ [_ [V' _]]]]]].
-    + exact F.
-    + discriminate.
-    + exfalso. inversion Hi0; subst m0. rewrite Hm in Hm0. destruct (server s); discriminate.
+  - destruct (done_step c s (IHs m) s' o Hs He D) as [F | [[Q Es] | [m' [_ [_ [_ [V' _]]]]]]].
+    + left. exact F.
+    + apply (Hq s' Q eq_refl Es).
     + congruence.
-  - destruct (live_step c s (IHs m) s' o Hl Hs) as [F | [[_ [_ [Hi' _]]] | [r [_ [_ [_ [_ [Hf _]]]]]]]].
-    + exact F.
-    + discriminate.
+  - destruct (live_step c s (IHs m) s' o Hl Hs) as [F | [[Q Es] | [r [_ [_ [_ [_ [Hf _]]]]]]]].
+    + left. exact F.
+    + apply (Hq s' Q eq_refl Es).
     + exfalso. assert (rsec s = true).
       { apply Hf; [|exact V]. cbn [is_fin_typ]. rewrite Hm. reflexivity. }
       congruence.
@@ -949,7 +961,7 @@ Lemma grun_done : forall xs s, err s = false -> hs s = DONE -> err (grun s xs) =
 Proof.
   induction xs as [|x r IH]; intros s He Hd Hf; cbn [grun] in *; [split; auto|].
   destruct (step s (f s x)) as [s' o] eqn:Hs. cbn [fst] in *.
-  destruct (done_step s (f s x) s' o Hs He Hd) as [[_ E] | [[_ E] | [m [_ [_ [_ [_ [E _]]]]]]]].
+  destruct (done_step (Server false false false) s (f s x) s' o Hs He Hd) as [[_ E] | [[_ E] | [m [_ [_ [_ [_ [_ [E _]]]]]]]]].
   - rewrite (grun_dead r s' E) in Hf. discriminate.
   - subst s'. apply IH; assumption.
   - subst s'. destruct (accept_nohash s m) as [A1 [A2 [_ [_ [_ [A6 _]]]]]].
@@ -965,7 +977,7 @@ Proof.
   induction xs as [|x r IH]; intros s0 Hl He Hd; cbn [grun] in *.
   - destruct Hl as [_ [D _]]. contradiction.
   - destruct (step s0 (f s0 x)) as [s1 o] eqn:Hs. cbn [fst] in *.
-    destruct (live_step c s0 (f s0 x) s1 o Hl Hs) as [[_ E] | [[_ [E _]] | [q [_ [E [G [_ [_ [[D [F T]] | L]]]]]]]]].
+    destruct (live_step c s0 (f s0 x) s1 o Hl Hs) as [[_ E] | [[_ E] | [q [_ [E [G [_ [_ [[D [F T]] | L]]]]]]]]].
     + rewrite (grun_dead r s1 E) in He. discriminate.
     + subst s1. destruct (IH s0 Hl He Hd) as [xs1 [y [xs2 [Hx [H1 [H2 H3]]]]]].
       exists (x :: xs1), y, xs2. cbn [grun app]. rewrite Hs. cbn [fst]. subst r.
